@@ -218,3 +218,77 @@ def loop_no_skip(ctx, rule, b, construct, must_bbs, what, header_pred=None):
     p = b.witness_path(start, [h], must_bbs) if start is not None else None
     return ctx.ob(rule, construct, p is None, what if p is None else "%s: an iteration can return to the loop head without it: %s" % (what, path_str(b, p)),
                   where=b.where(h))
+
+
+def loop_exits(b, head):
+    """[(src, dst)] edges leaving the natural loop around `head` (nodes that are reachable from head's return and can reach head)"""
+    start = call_succ(b, head)
+    if start is None:
+        return None
+    fwd = b.reachable_from(start)
+    inloop = {x for x in fwd if b.reachable_avoiding(x, [head], [])} | {head}
+    out = []
+    for x in inloop:
+        for s in b.succ[x]:
+            if s not in inloop:
+                out.append((x, s))
+    return out
+
+
+def loop_only_ends_when_exhausted(ctx, rule, b, construct, head, what):
+    """the loop fed by the element fetch `head` is left only (a) by the fetch reporting the end of the list or (b) towards
+    exits that cannot reach an accepting return: no `break` hands a truncated result to the accepting path"""
+    exits = loop_exits(b, head)
+    if exits is None:
+        return ctx.missing(rule, construct, "loop not found")
+    bad = []
+    for src, dst in exits:
+        # (a) an edge whose condition is the fetch result being None / Err
+        en = dst if dst in b.edge_info else (src if src in b.edge_info else None)
+        if en is not None:
+            t, lab = b.edge_condition(en)
+            st = strip_all(t)
+            hs = strip_all(b.call_term(b.blocks[head]["t"]))
+            if (st == hs or contains_term(st, hs)) and lab[0] in ("is", "try") and ("None" in str(lab[1]) or lab[1] is False or "Err" in str(lab[1])):
+                continue
+        if not b.reachable_avoiding(dst, b.ok_exits(), []) and not _reaches_plain_return(b, dst):
+            continue
+        bad.append("%s -> %s" % (b.where(src if src < b.n else b.edge_info[src][0]), b.where(dst if dst < b.n else b.edge_info[dst][0])))
+    return ctx.ob(rule, construct, not bad, what if not bad else "%s: the loop can be left early towards an accepting return: %s" % (what, bad[:2]),
+                  where=b.where(head))
+
+
+def contains_term(t, sub):
+    return mir.contains(t, lambda x: x == sub)
+
+
+def _reaches_plain_return(b, node):
+    """for functions that do not return Result/Option: any return counts as accepting"""
+    if b.ok_exits() or b.err_exits():
+        return False
+    return b.reachable_avoiding(node, b.return_blocks(), [])
+
+
+def loop_head_for(b, must_bb, header_pred=None):
+    """innermost in-cycle element fetch (`next`-style call) that dominates must_bb and lies on a cycle with it"""
+    heads = []
+    for bi, name, t in b.calls():
+        if not b.in_cycle(bi) or bi == must_bb:
+            continue
+        f = flat(name)
+        if header_pred(f) if header_pred else (f.endswith("::next") or f.endswith("validation_error::next")):
+            if b.dominates(bi, must_bb) and b.reachable_avoiding(must_bb, [bi], []):
+                heads.append(bi)
+    if not heads:
+        return None
+    return min(heads, key=lambda x: len(b.dominators().get(x) or ()))
+
+
+def whole_list(ctx, rule, b, construct, must_bbs, what):
+    """outermost loop around the must-call: no element skipped, and the loop ends only when the list is exhausted"""
+    if not must_bbs:
+        return ctx.missing(rule, construct, "no call to guard (%s)" % what)
+    h = loop_head_for(b, must_bbs[0])
+    if h is None:
+        return ctx.missing(rule, construct, "loop head not found (%s)" % what)
+    return loop_only_ends_when_exhausted(ctx, rule, b, construct, h, what)
